@@ -218,13 +218,32 @@ fn tag_claim(kw: &str, config: Config, text: &str) -> Claim {
     if !matches!(kw, "raw" | "comment" | "break" | "continue" | "ifchanged") && !text.contains('\'') && !text.contains('"') && text.contains(&format!("| {UNKNOWN_FILTER}")) {
         return Claim::MustReject("unknown filter in a tag argument");
     }
+    // `for` / `tablerow`: after `<name> in <source>` only `reversed` and `limit|offset|cols : <value>` may follow;
+    // anything else in an option position is an argument nobody defined (no claim once a quote or a pipe is involved)
+    if matches!(kw, "for" | "tablerow") && !text.contains('|') {
+        let inner = text.trim_start_matches("{% ").split(" %}").next().unwrap_or("");
+        let toks: Vec<&str> = inner.split(' ').skip(1).collect();
+        let is_source = |t: &str| matches!(t, "x" | "y" | "x.y" | "x[0]" | "1" | "(1..3)" | "(x..y)" | "nil" | "true" | "empty");
+        if toks.len() >= 4 && matches!(toks[0], "x" | "y") && toks[1] == "in" && is_source(toks[2]) {
+            let mut r = &toks[3..];
+            loop {
+                match r {
+                    [] => break,
+                    ["reversed", rest @ ..] => r = rest,
+                    ["limit" | "offset" | "cols", ":", v, rest @ ..] if is_source(v) => r = rest,
+                    ["limit" | "offset" | "cols", ..] => break, // malformed option: rejected or not, no claim here
+                    _ => return Claim::MustReject("undefined loop argument"),
+                }
+            }
+        }
+    }
     Claim::NoClaim
 }
 
 /// the tokens it takes to put a filter chain (known / unknown filter, with an argument, chained) into any argument
-/// position of a tag: short enough to go four to five tokens deep in every keyword
+/// position of a tag (and a loop head with its options): short enough to go four to five tokens deep in every keyword
 fn a_pipes() -> Vec<&'static str> {
-    vec!["x", "1", "|", UNKNOWN_FILTER, "upcase", "in", "=", ":", ","]
+    vec!["x", "1", "|", UNKNOWN_FILTER, "upcase", "in", "=", ":", ",", "reversed", "limit"]
 }
 
 fn f_tag(report: &Report, config: Config, n: u32) {
